@@ -899,7 +899,7 @@ func init() {
 			{K: "setns", DS: "A", N: 1}, {K: "setns", DS: "B", N: 2}, {K: "setns2", DS: "B", To: "A", N: 3},
 			{K: "restart"},
 		}
-		depth, budget := 5, 150
+		depth, budget := 5, 400
 		if !r.Quick() {
 			depth, budget = 7, 2400
 		}
